@@ -84,6 +84,62 @@ result = {'max_abs_difference': worst}
 """
 
 
+_AGG_SCRIPT = """
+import numpy as np
+spec = args[0]
+al = mod('aggregation_layer'); ll = mod('lattice_layer'); pl = mod('pwl_calibration_layer')
+keras = al.keras
+rng = np.random.RandomState(spec['seed'])
+nf = spec['features']
+ins = [keras.Input(shape=(1,)) for _ in range(nf)]
+if spec['inner'] == 'lattice':
+  z = keras.layers.Concatenate(axis=1)(ins)
+  lat = ll.Lattice(lattice_sizes=[2, 3, 2][:nf], output_min=0.0, output_max=1.0)
+  model = keras.Model(ins, lat(z))
+  lat.kernel.assign(rng.uniform(0, 1, size=tuple(lat.kernel.shape)).astype('float32'))
+else:
+  cals = [pl.PWLCalibration(input_keypoints=[0.0, 1.0, 2.0], units=1)(i) for i in ins]
+  model = keras.Model(ins, keras.layers.Add()(cals) if nf > 1 else cals[0])
+  for v in model.trainable_variables:
+    v.assign(rng.uniform(-1, 1, size=tuple(v.shape)).astype('float32'))
+agg = al.Aggregation(model)
+worst = 0.0
+detail = None
+for trial in range(6):
+  lengths = [int(l) for l in rng.choice(spec['lengths'], size=spec['batch'])]
+  cols = [[rng.uniform(-0.5, 2.5, size=l).astype('float32').tolist() for l in lengths] for _ in range(nf)]
+  got = agg([tf.ragged.constant(c, dtype=tf.float32, ragged_rank=1) for c in cols]).numpy().reshape(-1)
+  for b, l in enumerate(lengths):
+    xs = [np.array(cols[f][b], 'float32').reshape(-1, 1) for f in range(nf)]
+    want = float(np.mean(model(xs).numpy()))
+    err = abs(float(got[b]) - want)
+    if err > worst:
+      worst, detail = err, {'lengths': lengths, 'row': b, 'got': float(got[b]), 'per_example_mean': want}
+result = {'max_abs_difference': worst, 'detail': detail}
+"""
+
+
+class AggregationCase(Case):
+  """BOUNDED stand-in (labelled): tf.ragged.map_flat_values over a Keras model has no operator contract.
+  Aggregation(model) is compared natively with the per-example mean of the wrapped model over the ragged
+  elements, for rows of 1-4 elements, two inner models, 1-3 features."""
+  contract_key = None
+  xcheck = False
+
+  def replay(self, cfg, model, g):
+    return {'failing': [g['name']] if 'differs' in g['name'] else [], 'note': 'evaluated natively in the check itself'}
+
+  def body(self, cfg, c):
+    from vt import prop
+    res = prop.run_native([{'kind': 'script', 'code': _AGG_SCRIPT, 'floatx': 'float32', 'args': [cfg], 'kwargs': {}}])[0]
+    if 'error' in res:
+      return [('bounded:aggregation-evaluates: raised %s' % res['error'][:160], E.FALSE)]
+    r = res['ok']
+    ok = r['max_abs_difference'] <= 1e-5
+    return [('bounded:aggregation-equals-per-example-mean' + ('' if ok else ': differs by %g at %s' % (r['max_abs_difference'], r['detail'])),
+             B.const(bool(ok)))]
+
+
 class PairCase(Case):
   contract_key = None
   xcheck = False
@@ -268,12 +324,15 @@ class PairCase(Case):
     return cl
 
 
-CASES = {'pair': PairCase()}
+CASES = {'pair': PairCase(), 'aggregation': AggregationCase()}
 
 
 def configs(tier, rng):
   import props.C15 as C15
   jobs = []
+  for inner in ('lattice', 'pwl'):
+    for nf in ((1, 2) if tier == 'quick' else (1, 2, 3)):
+      jobs.append(('aggregation', dict(inner=inner, features=nf, batch=4, lengths=[1, 2, 3, 4], seed=3 + nf)))
   for (L, U, D, T) in [(2, 1, 1, 1), (2, 1, 2, 1), (3, 1, 2, 1), (2, 2, 2, 1), (2, 1, 2, 2), (3, 1, 1, 2), (2, 2, 1, 2)] + (
       [(3, 2, 2, 2), (2, 1, 3, 2)] if tier == 'thorough' else []):
     jobs.append(('pair', dict(pair='kfl_vs_lattice', L=L, units=U, dims=D, terms=T)))
